@@ -201,6 +201,15 @@ void World::opBuild(const Item& op)
             w[14] = static_cast<uint8_t>(op.get("wl1") & 0x0F);
             w[15] = static_cast<uint8_t>(std::min<size_t>(w.size() - 16, static_cast<size_t>(op.get("wl2", 0) & 0xFF)));
         }
+        // non-canonical but valid images: a non-zero pad byte / reserved byte, surplus bytes behind the last element
+        if (op.has("wpo") && w.size() > fixedSz)
+            w[fixedSz + static_cast<size_t>(std::max<int64_t>(0, op.get("wpo"))) % (w.size() - fixedSz)] ^= static_cast<uint8_t>(op.get("wpx", 0xAA));
+        if (op.get("wextra", 0) > 0)
+        {
+            const size_t old = w.size();
+            w.resize(old + static_cast<size_t>(std::min<int64_t>(op.get("wextra"), 64)));
+            fillContent(w.data() + old, static_cast<uint32_t>(op.get("wid", 7)) ^ 0x55AA, 0, w.size() - old);
+        }
         if (op.has("wcut"))
             w.resize(std::min<size_t>(w.size(), static_cast<size_t>(std::max<int64_t>(0, op.get("wcut")))));
         slot = BuilderSlot();
@@ -269,6 +278,41 @@ void World::opBuild(const Item& op)
         bd.vendor = contentBytes(id ^ 0x77777777u, 0, v);
     }
     const size_t fixed = wire::fixedSize(static_cast<wire::Kind>(cls));
+    if (op.get("same", 0))
+    {
+        // exactly the content the object already reports through its getters (idempotence; "re-sent with the same content")
+        std::string ve = "not-valid";
+        lib::Typed cur;
+        Bytes rawNow = slot.b->raw();
+        if (slot.b->selfValid())  // (the validator is safe on any size; the accessors only on what it accepts)
+        {
+            ve.clear();
+            cur = slot.b->typed(ve);
+        }
+        auto slice = [&](const lib::View& vw) -> Bytes
+        {
+            if (vw.off < 0 || static_cast<size_t>(vw.off) + vw.len > rawNow.size())
+                return Bytes();
+            return Bytes(rawNow.begin() + vw.off, rawNow.begin() + vw.off + static_cast<std::ptrdiff_t>(vw.len));
+        };
+        if (ve.empty())
+        {
+            if (cls == wire::K_CMSTAT)
+            {
+                for (int i = 0; i < 4; ++i)
+                    bd.str[i] = cur.strVal[i];
+                bd.vendor = slice(cur.vendor);
+            }
+            else if (cls == wire::K_IFSTAT)
+            {
+                bd.data = slice(cur.streams);
+                bd.vendor = slice(cur.vendor);
+            }
+            else if (cls != wire::K_ANALOG)
+                bd.data = slice(cur.data);
+            probe("setdata-with-reported-content");
+        }
+    }
     Bytes before = slot.b->raw();
     slot.b->setData(bd);
     res.apiCalls++;
